@@ -33,6 +33,9 @@ type TermSpec struct {
 
 type PolicySpec struct {
 	Terms []TermSpec `json:"terms"`
+	// Split: the chain is built with one filter per term instead of one filter holding all terms
+	// (same meaning: what a filter without a terminating action changed is handed to the next one)
+	Split bool `json:"split,omitempty"`
 }
 
 func AcceptAll() *PolicySpec {
@@ -153,6 +156,13 @@ func (ps *PolicySpec) Chain() filter.Chain {
 			}
 		}
 		terms = append(terms, filter.NewTerm(fmt.Sprintf("t%d", i), from, then))
+	}
+	if ps.Split && len(terms) > 1 {
+		var c filter.Chain
+		for i, t := range terms {
+			c = append(c, filter.NewFilter(fmt.Sprintf("verif%d", i), []*filter.Term{t}))
+		}
+		return c
 	}
 	return filter.Chain{filter.NewFilter("verif", terms)}
 }
